@@ -294,6 +294,10 @@ func (m *MethodMocker) Return(value ...interface{}) *When {
 		when *When
 		err  error
 	)
+	if value == nil {
+		// Return() 未传任何返回值: 用空列表(而不是 nil)参与个数检查, 返回值个数不足时在配置阶段就报错
+		value = []interface{}{}
+	}
 	if when, err = CreateWhen(m, m.methodIns, nil, value, true); err != nil {
 		panic(err)
 	}
@@ -545,6 +549,10 @@ func (m *DefMocker) Return(value ...interface{}) *When {
 		when *When
 		err  error
 	)
+	if value == nil {
+		// Return() 未传任何返回值: 用空列表(而不是 nil)参与个数检查, 返回值个数不足时在配置阶段就报错
+		value = []interface{}{}
+	}
 	if when, err = CreateWhen(m, m.funcDef, nil, value, false); err != nil {
 		panic(err)
 	}
